@@ -25,3 +25,7 @@ pub fn bad_shift(x: u32, s: u32) -> u32 { x << s }
 pub fn ok_contains_neg(i: isize) -> u8 { if (-255..=0).contains(&i) { (-i) as u8 } else { 0 } }
 pub fn bad_contains_neg(i: isize) -> isize { if (isize::MIN..=0).contains(&i) { -i } else { 0 } }
 pub fn ok_contains_excl(i: u8) -> u8 { if (0..255).contains(&i) { i + 1 } else { 0 } }
+fn bump(x: &mut u8) { *x = 255; }
+pub fn bad_mut_arg(a: u8) -> u8 { let mut v = a & 1; bump(&mut v); v + 1 }
+pub fn bad_mut_write(a: u8) -> u8 { let mut v = a & 1; let p = &mut v; *p = 255; v + 1 }
+pub fn bad_mut_loop(xs: &[u8]) -> u8 { let mut v = 0u8; for _ in xs { bump(&mut v); } v + 1 }
